@@ -29,9 +29,33 @@ theorem scan_word (w : List Char) (hw : w.all isWordChar = true) (cur rest : Lis
 
 /-- a character that is neither a word character nor a quote ends the current word -/
 theorem scan_other (c : Char) (h1 : isWordChar c = false) (h2 : isQuote c = false)
-    (cur rest : List Char) :
+    (h3 : (c == '/') = false) (cur rest : List Char) :
     scan .code cur (c :: rest) = flush cur ++ scan .code [] rest := by
-  simp [scan, h1, h2]
+  simp [scan, h1, h2, h3]
+
+/-- a line comment is skipped up to and including its line feed -/
+theorem scan_line_body (s : List Char) (hs : s.all (fun c => c != '\n') = true)
+    (cur rest : List Char) :
+    scan .line cur (s ++ '\n' :: rest) = scan .code cur rest := by
+  induction s with
+  | nil => simp [scan]
+  | cons c cs ih =>
+    simp only [List.all_cons, Bool.and_eq_true, bne_iff_ne, ne_eq] at hs
+    have h1 : (c == '\n') = false := by simpa using hs.1
+    simp only [List.cons_append, scan, h1]
+    exact ih hs.2
+
+/-- a block comment without `*` inside is skipped up to and including `*/` -/
+theorem scan_block_body (s : List Char) (hs : s.all (fun c => c != '*') = true)
+    (cur rest : List Char) :
+    scan .block cur (s ++ '*' :: '/' :: rest) = scan .code cur rest := by
+  induction s with
+  | nil => simp [scan]
+  | cons c cs ih =>
+    simp only [List.all_cons, Bool.and_eq_true, bne_iff_ne, ne_eq] at hs
+    have h1 : (c == '*') = false := by simpa using hs.1
+    simp only [List.cons_append, scan, h1]
+    exact ih hs.2
 
 theorem quote_not_backslash {q : Char} (h : isQuote q = true) : (q == '\\') = false := by
   simp only [isQuote, Bool.or_eq_true, beq_iff_eq] at h
@@ -55,12 +79,12 @@ theorem scan_sep (s : Sep) (hs : s ≠ .none) (cur rest : List Char) :
     scan .code cur (s.chars ++ rest) = flush cur ++ scan .code [] rest := by
   cases s with
   | none => exact absurd rfl hs
-  | sp => exact scan_other ' ' (by decide) (by decide) cur rest
-  | tab => exact scan_other '\t' (by decide) (by decide) cur rest
-  | lf => exact scan_other '\n' (by decide) (by decide) cur rest
+  | sp => exact scan_other ' ' (by decide) (by decide) (by decide) cur rest
+  | tab => exact scan_other '\t' (by decide) (by decide) (by decide) cur rest
+  | lf => exact scan_other '\n' (by decide) (by decide) (by decide) cur rest
   | crlf =>
     show scan .code cur ('\r' :: '\n' :: rest) = _
-    rw [scan_other '\r' (by decide) (by decide), scan_other '\n' (by decide) (by decide)]
+    rw [scan_other '\r' (by decide) (by decide) (by decide), scan_other '\n' (by decide) (by decide) (by decide)]
     simp [flush_nil]
 
 theorem scan_sep_nil (s : Sep) (rest : List Char) :
@@ -115,14 +139,53 @@ theorem scan_render_gen (xs : List (Tok × Sep)) :
       rw [hr, h1, scan_str_body q hq body hbody, scan_sep_nil, ih [] hvr (Or.inl rfl)]
       simp [flush_nil, wordsOf]
     | sym c =>
-      simp only [valid, Tok.wf, Bool.and_eq_true, Bool.not_eq_true'] at hv
-      obtain ⟨⟨⟨hw, hq⟩, _⟩, hvr⟩ := hv
+      simp only [valid, Tok.wf, Bool.and_eq_true, Bool.not_eq_true', bne_iff_ne, ne_eq] at hv
+      obtain ⟨⟨⟨⟨hw, hq⟩, hsl⟩, _⟩, hvr⟩ := hv
+      have hsl' : (c == '/') = false := by simpa using hsl
       simp only [render, Tok.chars, wordsOf, List.cons_append, List.nil_append]
-      rw [scan_other c hw hq, scan_sep_nil, ih [] hvr (Or.inl rfl)]
+      rw [scan_other c hw hq hsl', scan_sep_nil, ih [] hvr (Or.inl rfl)]
       simp [flush_nil]
+    | lineComment body =>
+      simp only [valid, Tok.wf, Bool.and_eq_true] at hv
+      obtain ⟨⟨hbody, _⟩, hvr⟩ := hv
+      have hr : render ((Tok.lineComment body, s) :: r)
+          = '/' :: '/' :: (body ++ '\n' :: (s.chars ++ render r)) := by
+        simp [render, Tok.chars]
+      have h1 : scan .code cur ('/' :: '/' :: (body ++ '\n' :: (s.chars ++ render r)))
+          = flush cur ++ scan .line [] (body ++ '\n' :: (s.chars ++ render r)) := by
+        have a : isWordChar '/' = false := by decide
+        have b : isQuote '/' = false := by decide
+        simp [scan, a, b]
+      rw [hr, h1, scan_line_body body hbody, scan_sep_nil, ih [] hvr (Or.inl rfl)]
+      simp [flush_nil, wordsOf]
+    | blockComment body =>
+      simp only [valid, Tok.wf, Bool.and_eq_true] at hv
+      obtain ⟨⟨hbody, _⟩, hvr⟩ := hv
+      have hr : render ((Tok.blockComment body, s) :: r)
+          = '/' :: '*' :: (body ++ '*' :: '/' :: (s.chars ++ render r)) := by
+        simp [render, Tok.chars]
+      have h1 : scan .code cur ('/' :: '*' :: (body ++ '*' :: '/' :: (s.chars ++ render r)))
+          = flush cur ++ scan .block [] (body ++ '*' :: '/' :: (s.chars ++ render r)) := by
+        have a : isWordChar '/' = false := by decide
+        have b : isQuote '/' = false := by decide
+        have c : ('*' == '/') = false := by decide
+        simp [scan, a, b, c]
+      rw [hr, h1, scan_block_body body hbody, scan_sep_nil, ih [] hvr (Or.inl rfl)]
+      simp [flush_nil, wordsOf]
+
+theorem scan_lead (lead : List Sep) (rest : List Char) :
+    scan .code [] (leadChars lead ++ rest) = scan .code [] rest := by
+  induction lead with
+  | nil => rfl
+  | cons a r ih => simp only [leadChars, List.append_assoc]; rw [scan_sep_nil, ih]
 
 theorem scan_render (xs : List (Tok × Sep)) (hv : valid xs = true) :
     scan .code [] (render xs) = wordsOf xs := by
   rw [scan_render_gen xs [] hv (Or.inl rfl)]; simp [flush_nil]
+
+theorem scan_renderL (lead : List Sep) (xs : List (Tok × Sep)) (hv : valid xs = true) :
+    scan .code [] (renderL lead xs) = wordsOf xs := by
+  unfold renderL
+  rw [scan_lead, scan_render xs hv]
 
 end SgModel.Route
